@@ -3,49 +3,37 @@ import MythVerif.Proofs.WsQueueTsoTac
 namespace MythVerif.WsqTso
 open MythVerif.Wsq
 
-set_option maxHeartbeats 4000000 in
 theorem t_vk1 (s s' : St) (p : Pid) : Inv s → s.tpc p = .vk1 → stepT s p = some s' → Inv s' := by
   intro h heq hs
   have hb := h.tbufE p (by simp [heq, mayBuf])
-  cases h
   simp only [stepT, heq, hb, viewBase_nil] at hs
   simp at hs; subst hs
-  simp only [ownerLocked, carry, resetting, ownerFlight] at *
-  tso_finish
+  tso_fastT h p []
 
-set_option maxHeartbeats 4000000 in
 theorem t_vkf (s s' : St) (p : Pid) (b) : Inv s → s.tpc p = .vkf b → stepT s p = some s' → Inv s' := by
   intro h heq hs
   have hcfg := h.cfg
-  cases h
   simp only [stepT, heq, fenceOk, hcfg, code_wpeekFence] at hs
   split at hs
   · rename_i hb
     simp at hb
     simp at hs; subst hs
-    simp only [ownerLocked, carry, resetting, ownerFlight] at *
-    tso_finish
+    tso_fastT h p [vkf]
   · simp at hs
 
-set_option maxHeartbeats 4000000 in
 theorem t_vk2 (s s' : St) (p : Pid) (b) : Inv s → s.tpc p = .vk2 b → stepT s p = some s' → Inv s' := by
   intro h heq hs
   have hb := h.tbufE p (by simp [heq, mayBuf])
-  cases h
   simp only [stepT, heq, hb, viewTop_nil] at hs
   split at hs
   all_goals (simp at hs; subst hs)
-  all_goals simp only [ownerLocked, carry, resetting, ownerFlight] at *
-  all_goals tso_finish
+  all_goals tso_fastT h p [vk2]
 
-set_option maxHeartbeats 4000000 in
 theorem t_vk3 (s s' : St) (p : Pid) (b) : Inv s → s.tpc p = .vk3 b → stepT s p = some s' → Inv s' := by
   intro h heq hs
   have hb := h.tbufE p (by simp [heq, mayBuf])
-  cases h
   simp only [stepT, heq, hb, viewPtr_nil] at hs
   simp at hs; subst hs
-  simp only [ownerLocked, carry, resetting, ownerFlight] at *
-  tso_finish
+  tso_fastT h p [vk3]
 
 end MythVerif.WsqTso
